@@ -89,7 +89,7 @@ def gen_index(rng, rows):
     maxL = max(lens)
     form = ['int', 'rowslice', 'rowlist', 'elem', 'int-slice', 'slice-int',
             'slice-slice', 'list-slice', 'slice-list', 'list-list',
-            'rowarray'][int(rng.integers(0, 11))]
+            'rowarray', 'arr-arr', 'arr-int'][int(rng.integers(0, 13))]
     if form == 'int':
         return form, int(rng.integers(-n, n))
     if form == 'rowslice':
@@ -123,7 +123,12 @@ def gen_index(rng, rows):
         m = min(lens) if rng.random() < 0.7 else maxL
         return form, (rnd_slice(rng, n),
                       [int(x) for x in rng.integers(-m, m, size=k)])
-    if form == 'list-list':
+    if form == 'arr-int':
+        k = int(rng.integers(1, 5))
+        rs = np.array([int(x) for x in rng.integers(-n, n, size=k)])
+        m = min(lens[r] for r in rs)
+        return form, (rs, int(rng.integers(-m, m)))
+    if form in ('list-list', 'arr-arr'):
         k = int(rng.integers(1, 5))
         rs = [int(x) for x in rng.integers(-n, n, size=k)]
         cs = []
@@ -133,6 +138,8 @@ def gen_index(rng, rows):
                 cs.append(int(L + rng.integers(0, 2)))
             else:
                 cs.append(int(rng.integers(-L, L)))
+        if form == 'arr-arr':
+            return form, (np.array(rs), np.array(cs))
         return form, (rs, cs)
     raise AssertionError
 
@@ -339,7 +346,17 @@ def run_case(ctx, kind, rng, idx):
     # index expressions --------------------------------------------------
     for _ in range(40):
         form, ix = gen_index(rng, rows)
+        keep = [np.array(p_, copy=True) if isinstance(p_, np.ndarray) else None
+                for p_ in (ix if isinstance(ix, tuple) else (ix,))]
         compare(ctx, form, ix, rows, lambda: a[ix], desc)
+        # a read must not rewrite the caller's index arrays (they may be
+        # reused, e.g. on another array with other row lengths)
+        for p_, k_ in zip(ix if isinstance(ix, tuple) else (ix,), keep):
+            if k_ is not None and not np.array_equal(p_, k_):
+                ctx.violation('ra.read.%s.mutates-index' % form,
+                              'index array %s became %s during a read' % (
+                                  k_.tolist(), p_.tolist()))
+                break
     # boolean ragged mask + where -----------------------------------------
     for _ in range(3):
         p = [0.0, 0.3, 0.6, 1.0][int(rng.integers(0, 4))]
